@@ -74,6 +74,13 @@ def cases(tier, seed):
                 # the peer closes right behind its last byte: no time to answer in between
                 yield dict(state=st, base=base, op=list(op), ending='fin', fin_now=True,
                            seed=seed * 7919 + i)
+    # a peer that pipelines hundreds of valid requests and then garbage, while the local user is
+    # not consuming indications (it may be busy, or already on its way out)
+    for i, st in enumerate(['Sta6a', 'Sta6r', 'Sta7', 'Sta8']):
+        for nmsg in (70, 200):
+            for e in ENDINGS:
+                yield dict(state=st, base='echo', op=['flood', nmsg], ending=e,
+                           seed=seed * 7 + i)
     n = 600 if tier == 'quick' else 40000
     states = sorted(STATES)
     for i in range(n):
@@ -95,6 +102,8 @@ def _stream(case):
             b = bytes([rnd.choice([1, 2, 3, 4, 5, 6, 7])]) + b'\0' + \
                 (n - 6).to_bytes(4, 'big') + b[6:]
         return b
+    if op[0] == 'flood':
+        return mutate.BASES['echo'] * op[1] + rc.enc_pdu(0x5A, b'junk')
     if op[0] == 'flip':
         b = base
         for _ in range(rnd.randint(1, 3)):
@@ -239,7 +248,7 @@ def run_case(case):
         if wrem or 'MALFORMED' in wire_kinds:
             v('emitted-malformed-pdu', 'wire %r rem %r' % (wire_kinds, wrem))
         # two-branch reaction oracle
-        br = _branches(model0, framed) if not fin_now else None
+        br = _branches(model0, framed) if not fin_now and case['op'][0] != 'flood' else None
         judged = br is not None
         if judged:
             obs = (wire_kinds, ind_kinds, rig.state(), rig.sock_gone(), rig.timer_running())
